@@ -100,6 +100,29 @@ def task_names(lines):
     return names
 
 
+def control_outcome(lines):
+    """the outcome of a process without the values: messages by (task name, state), final states, process event states, action results"""
+    msgs, fin, procs, acts = outcome(lines)
+    m2 = Counter()
+    for (name, state, _i, _o), n in msgs.items():
+        m2[(name, state)] += n
+    return m2, fin, [p.split(' ')[1] for p in procs], acts
+
+
+def ended_over_open(lines):
+    """the trace reports the process ended while a task is still open"""
+    st = {}
+    for l in lines:
+        p = l.split(' ')
+        if p[0] == 'N':
+            st[p[1]] = 'none'
+        elif p[0] == 'T':
+            st[p[1]] = p[3]
+        elif p[0] == 'P' and p[1] in TERM:
+            return any(s not in TERM for s in st.values())
+    return False
+
+
 def interleave(r, seqs):
     """random merge of the per-process operation lists, order inside each list kept"""
     pos = [0] * len(seqs)
@@ -207,9 +230,32 @@ def run_c13(tier, seed, workdir):
                     ob = have[k] if k < len(have) else 'END'
                     if c['cfg']['cache_cap'] and ex.startswith('N ') and ex.split(' ')[2] == 'dyn':
                         cls = '13:generated_node_not_created'
+                    elif threads > 1 and ended_over_open(expect):
+                        # the process reports its ending while tasks beneath the root are still open (C03 findings 304 / 305):
+                        # what the open part still does depends on the pop order of the worker threads
+                        cls = '13:ended_over_open_tasks'
+                    elif threads > 1 and control_outcome(expect) == control_outcome(have):
+                        # same tasks, same states, same messages up to the values they carry: only data differs
+                        cls = '13:thread_order_data'
+                    elif threads > 1 and c['cfg']['cache_cap'] and any('/dyn:' in n for n in task_names(expect)):
+                        # line order differs with several threads, so the first differing line says little: a process with generated
+                        # acts under a cache smaller than the number of live processes (reloads lose generated nodes; the one-thread
+                        # runs of the same groups pin that class down by the first differing line)
+                        cls = '13:generated_node_not_created'
                     else:
                         cls = f"13:{ex.split(' ')[0]}/{ob.split(' ')[0]}"
                     detail = f"alone the process continues with `{ex}`, under load with `{ob}` (line {k})"
+                    if threads > 1:
+                        oa, ob2 = outcome(expect), outcome(have)
+                        parts = []
+                        for nm, x, y in (('messages', oa[0], ob2[0]), ('final states', oa[1], ob2[1])):
+                            if x != y:
+                                parts.append(f"{nm}: only alone {dict(x - y)}, only under load {dict(y - x)}")
+                        if oa[2] != ob2[2]:
+                            parts.append(f"process events: alone {oa[2]}, under load {ob2[2]}")
+                        if oa[3] != ob2[3]:
+                            parts.append(f"action results: alone {oa[3]}, under load {ob2[3]}")
+                        detail += "; outcome: " + "; ".join(parts)[:900]
                 violations.append({'class': cls, 'detail': f"group g{g} ({len(c['procs'])} processes, cache_cap={c['cfg']['cache_cap'] or 'default'}, {threads} threads) process {pid} (corpus case {member['id']}): {detail}",
                                    'case': {'kind': 'multi', 'case': c, 'pid': pid, 'solo_case': member, 'threads': threads}})
         stats['outcome_equal'][f'threads={threads}'] = same
